@@ -28,6 +28,18 @@ DOMD = sym.fn("DOMD", sym.Ref, sym.Name, sym.EnvSort, sym.PVSort, sym.B)    # th
 
 
 def install(reg, src):
+    reg.bounded_checks.setdefault("C03", []).append({
+        "name": "jacobian", "script": "bounded_jacobian.py", "args": {"what": "jacobian"}, "timeout": 900,
+        "bound": "pool of ~120 expressions (every node kind in a few contexts, vectors of length 3, a 2x2 matrix) x 4 variable "
+                 "lists (own order, reversed, seeded permutation, superset) x 2 points; compile_jacobian for 1 and 2 expressions "
+                 "and compile_gradient compared with Richardson-extrapolated central differences of an independent evaluator",
+        "why": "QuadraticForm / MatrixSum rows, the vectorised power / unary gradients and lists of 2+ expressions are stated but "
+               "not proved (nested sums over numeric matrices, matrix operands without a denotation, fancy-indexed closures)"})
+    reg.bounded_checks.setdefault("C17", []).append({
+        "name": "hessian", "script": "bounded_jacobian.py", "args": {"what": "hessian"}, "timeout": 900,
+        "bound": "same pool, variable lists and points; compile_hessian compared with second central differences, and checked "
+                 "for symmetry",
+        "why": "compile_hessian's diagonal shortcuts and mirroring loop are not under proof"})
     # ---- link DOMD to the trees the differentiator returns (definitional: the tree is a function of (e, w))
     gc0 = reg.grad_contract
 
@@ -328,3 +340,99 @@ def install(reg, src):
             _seqs(ip).pointwise.append(pw)
             return z3.Implies(guard, ip.models.len_term(row.n) == n)
         c.ensures("every entry is scale * V[k]", post)
+
+    # ---- compute_hessian (C17): H[i][j] is the tree gradient(g_i, V[j]) of the first-pass tree g_i = gradient(e, V[i]).
+    #      Statement: H[i][j] is well formed and, wherever g_i is regular for V[j], its value is d[[g_i]]/dV[j]; g_i equals
+    #      d[[e]]/dV[i] on the regular set of e (G1).  That the derivative of g_i is then the second partial derivative of e
+    #      is the analytic fact "functions that agree on an open set have the same derivative there" (not a proof obligation).
+    HELEM = sym.fn("HESS_ELEM", sym.Ref, sym.I, sym.I, sym.Ref)
+    HFIRST = sym.fn("HESS_FIRST", sym.Ref, sym.I, sym.Ref)
+
+    def first_ok(sp, e, wi, g):
+        return [z3.Implies(sp.reg(e, wi, sp.E, sp.PVX), sp.den(g, sp.E, sp.PVX) == sp.dv(e, wi, sp.E, sp.PVX)), sp.wf(g)]
+
+    def second_ok(sp, g, wj, h):
+        return [z3.Implies(sp.reg(g, wj, sp.E, sp.PVX), sp.den(h, sp.E, sp.PVX) == sp.dv(g, wj, sp.E, sp.PVX)), sp.wf(h)]
+
+    @reg.contract(f"{AD}:compute_hessian", props=["C17"])
+    def _(c):
+        ip = c.ip
+        sp = Spec(ip)
+        e = c.arg("expr", T.expr())
+        vs = varlist(c)
+        n = ip.models.len_term(vs.n)
+        c.requires(sp.wf(e), name="well-formed scalar expression")
+        base = sym.fresh("hessian", sym.Ref)
+        name_of = lambda k: FN(vs.get(k if not isinstance(k, int) else z3.IntVal(k)).ref)
+
+        def entry(i, j, assume=True):
+            it = i if not isinstance(i, int) else z3.IntVal(i)
+            jt = j if not isinstance(j, int) else z3.IntVal(j)
+            h = Opaque(HELEM(base, it, jt), "Expression")
+            # witness first-pass tree: an opaque one for callers, the real grad[i] while the body is under proof
+            g = state["grad_at"](it) if (c.verifying and state.get("grad_at")) else Opaque(HFIRST(base, it), "Expression")
+            if assume:
+                inr = z3.And(it >= 0, it < n, jt >= 0, jt < n)
+                for f in first_ok(sp, e, name_of(it), g) + second_ok(sp, g, name_of(jt), h):
+                    ip.path.assume(z3.Implies(inr, f))
+            return h
+
+        state = {}
+
+        def row_seq(i):
+            return SSeq(n, lambda j: entry(i, j), "list", "hessian row", tag=("hessrow", base))
+        c.returns(lambda cc: SSeq(n, lambda i: row_seq(i), "list", "hessian", tag=("hessian", base)))
+        if c.verifying:
+            # the first-pass list is a lazily evaluated comprehension; inside the loops its i-th entry is the witness g_i
+            def grad_i(st_or_fr, i):
+                ok, gl = st_or_fr.lookup("grad") if hasattr(st_or_fr, "lookup") else (True, st_or_fr.var("grad"))
+                return ip.models.as_seq(gl).get(i)
+
+            def inner_spec(i_term, frame_getter):
+                def spec_elem(j):
+                    return entry(i_term, j)
+
+                def equal(ip2, appended, j):
+                    g = frame_getter()
+                    return second_ok(sp, g, name_of(j), appended) + first_ok(sp, e, name_of(i_term), g)
+                return ListSpec(spec_elem, equal, "row")
+
+            def outer_equal(ip2, appended, i):
+                # the appended row is the finished inner list: check an arbitrary column of it
+                S = ip2.models.as_seq(appended)
+                goals = [ip2.models.len_term(S.n) == n]
+                j = skolem(ip2, "sk_hcol", n)
+                index_used(ip2, j)
+                ip2.path.assume(z3.And(j >= 0, j < n, ip2.models.len_term(S.n) == n))
+                h = S.get(j)
+                g = state["grad_at"](i)
+                goals += second_ok(sp, g, name_of(j), h) + first_ok(sp, e, name_of(i), g)
+                return goals
+
+            def outer_inv(st):
+                state["grad_at"] = lambda i: ip.models.as_seq(st.var("grad")).get(i)
+                return []
+            c.loop(1, outer_inv, havoc={"hessian": ListSpec(lambda i: row_seq(i), outer_equal, "hessian"), "row": None})
+
+            def inner_inv(st):
+                from pyvc.values import num_term
+                state["i"] = num_term(st.var("i"))       # the outer iteration this inner loop belongs to
+                return []
+            c.loop(2, inner_inv, havoc={"row": inner_spec_dyn(state, entry, second_ok, first_ok, sp, e, name_of)})
+
+            def post(res):
+                S = ip.models.as_seq(res)
+                goals = [ip.models.len_term(S.n) == n]
+                return goals
+            c.ensures("one row per variable", post)
+
+
+def inner_spec_dyn(state, entry, second_ok, first_ok, sp, e, name_of):
+    """ListSpec of the inner `row.append(gradient(grad[i], variables[j]))` loop; i is the outer iteration under check."""
+    def spec_elem(j):
+        return entry(state["i"], j)
+
+    def equal(ip2, appended, j):
+        g = state["grad_at"](state["i"])
+        return second_ok(sp, g, name_of(j), appended) + first_ok(sp, e, name_of(state["i"]), g)
+    return ListSpec(spec_elem, equal, "row")
